@@ -612,9 +612,15 @@ impl Record {
         let columns: Vec<Expr> = columns.into_iter().map(Into::into).collect();
         move |rec_l: &VMap, rec_r: &VMap| {
             for col in &columns {
-                let l_val = col.eval_value(rec_l)?;
-                let r_val = col.eval_value(rec_r)?;
-                let cmp = l_val.cmp(&r_val);
+                // A row on which the key cannot be evaluated (e.g. a missing field) sorts after
+                // every row that has a value: returning the error here would make the
+                // comparator inconsistent (Err in both directions).
+                let cmp = match (col.eval_value(rec_l), col.eval_value(rec_r)) {
+                    (Ok(l_val), Ok(r_val)) => l_val.cmp(&r_val),
+                    (Ok(_), Err(_)) => Ordering::Less,
+                    (Err(_), Ok(_)) => Ordering::Greater,
+                    (Err(_), Err(_)) => Ordering::Equal,
+                };
                 if cmp != Ordering::Equal {
                     return Ok(cmp);
                 }
